@@ -14,6 +14,10 @@ def lookupS (l : List (String × String)) (k : String) : String := ((l.find? (·
 partial def concStep (args : List String) : String :=
   match args with
   | "freshcredit" :: rest => concStep ("balances" :: rest)
+  | "linkrace" :: rest =>
+    -- as `balances`, and no trial balance survives a link (C13 `trial_never_both_nor_lost`)
+    if findStr "trials" rest == some "0" then concStep ("balances" :: rest)
+    else "lost-update a trial balance was kept beside the wallet it was migrated into: trials=" ++ (findStr "trials" rest).getD "?"
   | "balances" :: rest =>
     -- no update is lost: every final balance is the sum of the acknowledged deltas (any schedule; C10 `no_lost_update`)
     match findArg "acked" rest, findArg "got" rest, findStr "total" rest with
